@@ -444,6 +444,10 @@ static int state_scrub_process(struct snapraid_state* state, struct snapraid_par
 					log_fatal("DANGER! Too many input/output read error in a data disk, it isn't possible to scrub.\n");
 					log_fatal("Ensure that disk '%s' is sane and that file '%s' can be accessed.\n", disk->dir, task->path);
 					log_fatal("Stopping at block %u\n", blockcur);
+
+					/* also the block of the error that reaches the limit is marked as bad */
+					info_set(&state->infoarr, blockcur, info_set_bad(info));
+					state->need_write = 1;
 					goto bail;
 					/* LCOV_EXCL_STOP */
 				}
@@ -543,6 +547,10 @@ static int state_scrub_process(struct snapraid_state* state, struct snapraid_par
 					log_fatal("DANGER! Too many input/output read error in the %s disk, it isn't possible to scrub.\n", lev_name(levcur));
 					log_fatal("Ensure that disk '%s' is sane and can be read.\n", lev_config_name(levcur));
 					log_fatal("Stopping at block %u\n", blockcur);
+
+					/* also the block of the error that reaches the limit is marked as bad */
+					info_set(&state->infoarr, blockcur, info_set_bad(info));
+					state->need_write = 1;
 					goto bail;
 					/* LCOV_EXCL_STOP */
 				}
